@@ -5,7 +5,7 @@ cd /verif
 for d in benign/*/; do
   id=$(basename $d)
   [ -f $d/patch.diff ] || continue
-  if [ -z "$1" ] && [ -f $d/result.json ]; then continue; fi
+  if [ "$1" != "--force" ] && [ "$1" != "--all" ] && [ -f $d/result.json ]; then continue; fi
   echo "== $id"
-  python3 tools/seeded.py $id --root benign "$@" || echo "   (skipped: rc=$?)"
+  python3 tools/seeded.py $id --root benign $(echo "$@" | sed "s/--force//") || echo "   (skipped: rc=$?)"
 done
